@@ -64,3 +64,11 @@ add('C24','model_checking','explicit-state BFS over the real PocketCoreApp with 
  'After every block of every explored history the unstaking lifecycle of every node and application is compared with a shadow automaton (session-boundary exit, due-time payout, amount, recipient, once).',_chain_note)
 add('C25','model_checking','explicit-state BFS over the real PocketCoreApp with a per-block slashing/jailing monitor',
  'After every block: burn == stake removed == supply decrease, below-minimum => jailed and queued, unjail acceptance == reference predicate on the pre-block state; consensus-set, pool and supply invariants on final states.',_chain_note)
+add('C36','model_checking','exhaustive enumeration of parameter x value class x signer and DAO action x amount x signer, differential replicas of the real app',
+ 'Every stored parameter of every module and every DAO action is attempted by the ACL/DAO owner and by two other signers; parameter store, balances and supply are compared with a reference replica.',_chain_note)
+add('C37','model_checking','exhaustive enumeration of upgrade-message sequences (depth 3) on the real app, running vs restarted replica',
+ 'Stored feature list sorted/duplicate-free and equal to a shadow schedule, activation table equal to the schedule on the running and on the restarted node, same next app hash.',_chain_note)
+add('C28','model_checking','exhaustive enumeration of admission requests x application-set states and transfer variants, differential replicas of the real app',
+ 'Admission decision == reference predicate, allowance derived from stake, transfer semantics field by field, pool invariant.',_chain_note)
+add('C43','model_checking','exhaustive enumeration of histories (depth 2-3) -> real ExportAppState -> fresh node InitChain in a new process -> state comparison',
+ 'For every enumerated history the exported state is imported by a new node and accounts, balances, supply, nodes, applications, parameters and claims are compared.',_chain_note)
